@@ -140,7 +140,7 @@ def build_controlled():
         d = tmpdir("nv-instr-")
         mapping = dict(hook_overlay())
         mapping[os.path.join(REPO, "zz_nv_rt.go")] = os.path.join(HARNESS, "overlay", "zz_nv_rt.go.txt")
-        for f in ("channel.go",):
+        for f in ("channel.go", "bootstrap.go", "holder.go"):
             outp = os.path.join(d, f)
             rc, so, se = run([os.path.join(BIN, "nvinstr"), os.path.join(REPO, f), outp], timeout=120)
             if rc != 0:
